@@ -575,7 +575,10 @@ impl<'a> G<'a> {
             self.stats.push("call.mapped.vec");
             return Some(format!("{f}({o}{arg}{o2})[*]{rhs}"));
         }
-        let choice = self.rng.below(12);
+        let mut choice = self.rng.below(12);
+        if choice == 10 && !(self.focus == Focus::Calls || self.focus == Focus::All) {
+            choice = 0;
+        }
         let t = match choice {
             0 => {
                 let (arg, _) = self.path_to(Type::Bytes, 0, false)?;
